@@ -54,7 +54,7 @@ def cexTx2 : Tx := ⟨0x20, 0, 0, 100, [97], 1, 1, 1, .empty⟩
     hash descending — the receipts (and with real transfers the ledger) differ. -/
 theorem chain_height_counterexample : ¬ FullStatementChainHeightIrrelevant := by
   intro h
-  have := h Orders.id cexEnv devTable 11 15 ⟨12, 1⟩ (fun _ => none) [] St.empty [cexTx1, cexTx2]
+  have := h Orders.id cexEnv devTable 11 15 { height := 12, p004Block := 1 } (fun _ => none) [] St.empty [cexTx1, cexTx2]
   unfold execBlockAt at this
   rw [receipts_in_list_order, receipts_in_list_order] at this
   revert this
